@@ -384,7 +384,7 @@ impl C20 {
         }
         if all_complete && clock::available() {
             st.exhaustive.push(format!(
-                "all op sequences of length {} over the 21-letter alphabet {{put(a|b|c,1), put(a,2), put_with_ttl(a|b|c,3,ttl=3ms), update(a|b|c,4), delete(a|b|c), checkpoint, restore(call 0|1|2), advance(1|2|3|4 ms)}} that contain a checkpoint and whose restores refer to earlier checkpoint calls, virtual clock; sequences with >= 2 checkpoints under max_checkpoints 1,2,3 x {{same-millisecond checkpoints allowed, checkpoints forced into distinct milliseconds}}; monitored after every op, so every shorter history is covered as a prefix",
+                "all op sequences of length {} over the 22-letter alphabet {{put(a|b|c,1), put(a,2), put_with_ttl(a|b|c,3,ttl=3ms), update(a|b|c,4), delete(a|b|c), checkpoint, restore(call 0|1|2), advance(1|2|3|4 ms), cleanup_expired}} that contain a checkpoint and whose restores refer to earlier checkpoint calls, virtual clock; sequences with >= 2 checkpoints under max_checkpoints 1,2,3 x {{same-millisecond checkpoints allowed, checkpoints forced into distinct milliseconds}}; monitored after every op, so every shorter history is covered as a prefix",
                 exh_len
             ));
         }
@@ -585,7 +585,7 @@ impl Check for C20 {
         "fault_enumeration"
     }
     fn rule(&self) -> String {
-        "HISTORIES: (i) exhaustive over a 21-letter op alphabet (see exhaustive_subspaces) at length 5 (quick) / 6 (thorough); (ii) seeded random histories of 1..=10 ops over 3 keys (put / put_with_ttl / update / delete / checkpoint / restore(any earlier call) / advance by 0,1,ttl-1,ttl,ttl+1 ms), max_checkpoints 1..=3, values from a domain with nested objects, arrays, -0.0, extreme doubles and integers, control and non-ASCII strings; minority features: same-millisecond checkpoints allowed (1/4), doubles with random bit patterns (1/8), NaN/inf (1/16), store-wide default TTL (1/8), hostile key names (1/4); (iii) checkpoint bursts (2-4 back-to-back checkpoints, every one restored), half of them inside one frozen millisecond; (iv) real-clock twins of (ii) and (iii). Every public view (get x3, keys, len, contains, is_empty) is compared with the reference model after EVERY op. A history is non-trivial when a restore returned Ok and had to undo changes made after its checkpoint (the live state differed from the snapshot); distinct by the whole case. FAULTS: per crash family (scenario = earlier checkpoints, later writes, victim checkpoint) one traced fault-free run, then one run per syscall of the victim call with SIGKILL on entry, one run per syscall x {ENOSPC, EIO}, one more run per syscall in which the process carries on after the injected error (max_checkpoints further put+checkpoint rounds on the same store, after each of which every checkpoint retention still owes is restored), the victim's state file cut and zero-filled at every byte offset, two synthesised directory states; each SIGKILL point is a distinct non-trivial case. After each fault a fresh store must restore every earlier checkpoint exactly (or, if retention may retire it, only after the new one is complete) and the victim completely or not at all.".into()
+        "HISTORIES: (i) exhaustive over a 22-letter op alphabet (see exhaustive_subspaces) at length 5 (quick) / 6 (thorough); (ii) seeded random histories of 1..=10 ops over 3 keys (put / put_with_ttl / update / delete / checkpoint / restore(any earlier call) / cleanup_expired / advance by 0,1,ttl-1,ttl,ttl+1 ms), max_checkpoints 1..=3, values from a domain with nested objects, arrays, -0.0, extreme doubles and integers, control and non-ASCII strings; minority features: same-millisecond checkpoints allowed (1/4), doubles with random bit patterns (1/8), NaN/inf (1/16), store-wide default TTL (1/8), hostile key names (1/4); (iii) checkpoint bursts (2-4 back-to-back checkpoints, every one restored), half of them inside one frozen millisecond; (iv) real-clock twins of (ii) and (iii). Every public view (get x3, keys, len, contains, is_empty) is compared with the reference model after EVERY op. A history is non-trivial when a restore returned Ok and had to undo changes made after its checkpoint (the live state differed from the snapshot); distinct by the whole case. FAULTS: per crash family (scenario = earlier checkpoints, later writes, victim checkpoint) one traced fault-free run, then one run per syscall of the victim call with SIGKILL on entry, one run per syscall x {ENOSPC, EIO}, one more run per syscall in which the process carries on after the injected error (max_checkpoints further put+checkpoint rounds on the same store, after each of which every checkpoint retention still owes is restored), the victim's state file cut and zero-filled at every byte offset, two synthesised directory states; each SIGKILL point is a distinct non-trivial case. After each fault a fresh store must restore every earlier checkpoint exactly (or, if retention may retire it, only after the new one is complete) and the victim completely or not at all.".into()
     }
     fn assumptions(&self) -> Vec<String> {
         vec![
